@@ -219,7 +219,9 @@ def _site_of(p, n):
             prev = p.events[e["i"] - 1] if e["i"] > 0 else {}
             op = prev.get("k", "?")
             ctxs = "handler" if any(x["k"] == "CAUGHT" and x["i"] < e["i"] for x in p.events) else "body"
-            return "fault@%s:%s" % (ctxs, op)
+            # paths with further injected panics (thorough tier) are different findings from single-fault paths
+            extra = sum(1 for x in p.events if x["k"] == "UNWIND_AT") - 1
+            return "fault@%s:%s%s" % (ctxs, op, ("+%d" % extra) if extra > 0 else "")
     return "no-fault"
 
 
